@@ -190,6 +190,57 @@ impl<M: Math> LowRankMassMatrix<M> {
     }
 }
 
+/// Plain-data copy of a low-rank transformation (verification hook).
+#[cfg(nuts_rs_verif)]
+pub struct LowRankParts {
+    pub stds: Vec<f64>,
+    pub inv_stds: Vec<f64>,
+    pub mean: Vec<f64>,
+    /// (sqrt eigenvalues, inverse sqrt eigenvalues, inner mu, logdet contribution)
+    pub inner: Option<(Vec<f64>, Vec<f64>, Vec<f64>, f64)>,
+    pub logdet: f64,
+    pub id: i64,
+}
+
+#[cfg(nuts_rs_verif)]
+impl<M: Math> LowRankMassMatrix<M> {
+    /// Set the transformation from explicit parameters (goes through the real `update`).
+    pub fn verif_set(
+        &mut self,
+        math: &mut M,
+        stds: &[f64],
+        mean: &[f64],
+        vals: &[f64],
+        vecs: &[Vec<f64>],
+        mean_low_rank: &[f64],
+    ) {
+        let ndim = stds.len();
+        let stds = Col::from_fn(ndim, |i| stds[i]);
+        let mean = Col::from_fn(ndim, |i| mean[i]);
+        let vals = Col::from_fn(vals.len(), |i| vals[i]);
+        let vecs = Mat::from_fn(ndim, vecs.len(), |i, j| vecs[j][i]);
+        let mean_low_rank = Col::from_fn(ndim, |i| mean_low_rank[i]);
+        self.update(math, stds, mean, vals, vecs, mean_low_rank);
+    }
+
+    pub fn verif_parts(&self, math: &mut M) -> LowRankParts {
+        let inner = self.inner.as_ref().map(|inner| {
+            let vals_sqrt = math.eigs_as_array(&inner.vals_sqrt).into_vec();
+            let vals_sqrt_inv = math.eigs_as_array(&inner.vals_sqrt_inv).into_vec();
+            let mu = math.box_array(&inner.mu).into_vec();
+            (vals_sqrt, vals_sqrt_inv, mu, inner.logdet_contribution)
+        });
+        LowRankParts {
+            stds: math.box_array(self.diag.stds()).into_vec(),
+            inv_stds: math.box_array(self.diag.inv_stds()).into_vec(),
+            mean: math.box_array(self.diag.mean()).into_vec(),
+            inner,
+            logdet: self.logdet,
+            id: self.id,
+        }
+    }
+}
+
 #[derive(Clone, Debug, Copy, Serialize, Deserialize)]
 pub struct LowRankSettings {
     pub store_mass_matrix: bool,
